@@ -562,6 +562,9 @@ def exec_step(step, sess, chains, audit):
             if step.get('delete_data'):
                 kw['delete_data'] = True
             c.force(targets, **kw)
+    elif op == 'locale':
+        import locale as _locale
+        obs['encoding'] = _locale.getpreferredencoding(False)
     elif op == 'reset':
         c = get_chain()
         for n in step['tasks']:
@@ -671,6 +674,10 @@ def exec_step(step, sess, chains, audit):
 
 def run_session(sess):
     sys.path.insert(0, sess['src'])
+    if sess.get('env'):
+        # environment of this session's process (e.g. TMPDIR on another file system than the data directory)
+        os.environ.update(sess['env'])
+        tempfile.tempdir = None
     from . import runtime as rt
     rt.STATE.update(log_path=sess.get('log'), session=sess.get('session', 's'), faults={}, invocations={}, records=[], uid=0)
     audit = Audit(sess['data_dir'])
@@ -745,8 +752,8 @@ def run_session_forked(sess, timeout=120):
     return {'exit': code, 'steps': res}
 
 
-def run_session_spawned(sess, hashseed=None, timeout=180):
-    """fresh interpreter (own PYTHONHASHSEED)."""
+def run_session_spawned(sess, hashseed=None, timeout=180, py_flags=(), env_extra=None):
+    """fresh interpreter (own PYTHONHASHSEED; optionally interpreter flags such as -O, or another locale in its environment)."""
     fd, inp = tempfile.mkstemp(prefix='labsess-in-', suffix='.json')
     os.close(fd)
     Path(inp).write_text(json.dumps(sess))
@@ -754,8 +761,9 @@ def run_session_spawned(sess, hashseed=None, timeout=180):
     env = dict(os.environ)
     if hashseed is not None:
         env['PYTHONHASHSEED'] = str(hashseed)
+    env.update(env_extra or {})
     try:
-        r = subprocess.run([sys.executable, '-m', 'tc_verif.lab.worker', inp, outp], env=env, capture_output=True, text=True, timeout=timeout)
+        r = subprocess.run([sys.executable, *py_flags, '-m', 'tc_verif.lab.worker', inp, outp], env=env, capture_output=True, text=True, timeout=timeout)
         if os.path.exists(outp):
             res = json.loads(Path(outp).read_text())
             if isinstance(res, dict) and 'harness_error' in res:
